@@ -20,6 +20,9 @@ def judge(req, impl, model, spec):
     if impl == "PANIC":
         ok = False
         what = "dump_y86_str panicked"
+    elif impl.startswith("NONDETERMINISTIC-DUMP"):
+        ok = False
+        what = "the same state was printed differently by two calls: " + impl[:400]
     elif parsed != state:
         a, b = parsed.split(";"), state.split(";")
         d = next(((x, y) for x, y in zip(a, b) if x != y), ("?", "?"))
